@@ -329,3 +329,46 @@ def fmt_sites(body):
                 s.consumer = Call(body, b, p)
                 break
     return sites
+
+
+def callee_bodies(fs, call):
+    """crate-local bodies a call resolves to (by resolved/declared path)"""
+    return [fs.bodies[n] for n in call.names if n in fs.bodies]
+
+def lift_roots(caller, call, callee, roots, through=DEFAULT_THROUGH):
+    """roots computed inside `callee` re-expressed in the frame of `caller` at the site `call`: a root that is a
+    parameter of the callee is replaced by the provenance of the matching argument, with the callee's field
+    path applied on top; every other root is kept as it is (its .call still belongs to the callee)."""
+    names = {callee.name_of(i + 1): i for i in range(callee.arg_count)}
+    out = []
+    for r in roots:
+        if r.kind == 'param' and r.what in names and names[r.what] < len(call.args):
+            for q in provenance(caller, call.args[names[r.what]], call.bb, 'term', through=through):
+                out.append(Root(q.kind, q.what, list(q.path) + list(r.path), q.site, q.call, q.extra))
+        else:
+            out.append(r)
+    return out
+
+def sites_through_helpers(fs, body, rx, depth=1):
+    """call sites of functions matching rx that `body` performs itself or through a crate helper it calls directly:
+    yields (site_call, via) where via is None or (call in body, helper body).  Used so that extracting a helper
+    around an anchored call does not hide the call from a rule."""
+    out = []
+    for c in body.calls():
+        if c.is_(rx):
+            out.append((c, None))
+        elif depth > 0:
+            for h in callee_bodies(fs, c):
+                if h.path == body.path:
+                    continue
+                for hc in h.calls():
+                    if hc.is_(rx):
+                        out.append((hc, (c, h)))
+    return out
+
+def roots_at(fs, body, site, via, op, through=DEFAULT_THROUGH):
+    """provenance of operand `op` used at `site` (terminator position), expressed in `body`'s frame"""
+    rs = provenance(site.body, op, site.bb, 'term', through=through)
+    if via is not None:
+        rs = lift_roots(body, via[0], via[1], rs, through=through)
+    return rs
